@@ -36,6 +36,7 @@ static int nextMid = 0;
 
 static const occa::dtype_t* dtypeOf(long e) {
   switch (e) {
+    case 0: return &occa::dtype::void_;      // a registered dtype of zero bytes
     case 1: return &occa::dtype::byte;
     case 2: return &occa::dtype::short_;
     case 4: return &occa::dtype::int_;
@@ -169,13 +170,14 @@ struct Req {             // what the property says about a request
   void bad(const std::string &w, bool f = false) { if (!invalid) { invalid = true; why = w; f05 = f; } }
 };
 
-static long lenOf(int v) { return sv[v].init ? sv[v].size / sv[v].esz : 0; }
+static long lenOf(int v) { return (sv[v].init && sv[v].esz) ? sv[v].size / sv[v].esz : 0; }
 
 // range rule shared by all copies: count == -1 means "all elements of the receiver"
 static void copyRule(Req &r, int self, long cnt, long selfOffBytes, long otherOffBytes, long otherSize, bool haveOther,
                      long doff, long soff) {
-  if (cnt < -1) r.bad("negative count");
-  if (doff < 0 || soff < 0) r.bad("negative offset");
+  // (for a dtype of zero bytes every count and offset addresses zero bytes: nothing to reject)
+  if (cnt < -1 && sv[self].esz) r.bad("negative count");
+  if ((doff < 0 || soff < 0) && sv[self].esz) r.bad("negative offset");
   long n = (cnt == -1) ? lenOf(self) : cnt;
   long bytes = n * sv[self].esz;
   if (selfOffBytes + bytes > sv[self].size) r.bad("out of the receiver's range");
@@ -220,6 +222,12 @@ int main() {
       std::function<void()> shadowOk;   // shadow update when the request succeeded
 
       if (op == "info" && nnum == 1 && isVar(a[0])) return info((int) a[0]);
+      // a handle whose dtype has zero bytes: length() used to divide by zero (F38); always tried in a child
+      auto zeroDt = [&](long v) { return isVar(v) && sv[v].init && sv[v].esz == 0; };
+      if (op != "asg" && op != "free" && op != "hw" && op != "hr" && op != "dev" &&
+          ((nnum >= 1 && zeroDt(a[0])) || (nnum >= 2 && op != "malloc" && op != "mallocd" && op != "wrap" && op != "setdt" && zeroDt(a[1])) ||
+           (op == "mallocm" && nnum == 4 && a[2] == 0)))
+        risky = true;
 
       if ((op == "malloc" || op == "mallocd") && nnum == 3 && isVar(a[0]) && dtypeOf(a[2])) {
         int v = a[0]; long n = a[1]; long e = a[2]; bool withData = (op == "mallocd");
@@ -270,7 +278,7 @@ int main() {
         if (!sv[s].init) { req.bad("uninitialised handle", true); }
         else {
           if (off < 0) req.bad("negative offset");
-          if (cnt < -1) req.bad("negative count");
+          if (cnt < -1 && sv[s].esz) req.bad("negative count");
           if (cnt == -1 ? off > lenOf(s) : off + cnt > lenOf(s)) req.bad("out of the handle's range");
         }
         made = d; parent = s;
@@ -287,7 +295,7 @@ int main() {
         made = d; parent = s;
         act = [=]() { occa::memory m = vars[s].cast(*dtypeOf(e)); vars[d] = m; };
         // whole elements of the source dtype are kept (memory::cast is slice(0) + setDtype)
-        shadowOk = [=]() { SView p = sv[s]; shadowAdopt(d, p.buf, p.off, (p.size / p.esz) * p.esz, (int) e); };
+        shadowOk = [=]() { SView p = sv[s]; shadowAdopt(d, p.buf, p.off, lenOf(s) * p.esz, (int) e); };
       } else if (op == "setdt" && nnum == 2 && isVar(a[0]) && dtypeOf(a[1])) {
         int v = a[0]; long e = a[1];
         if (!sv[v].init) { req.bad("uninitialised handle"); }
@@ -351,8 +359,8 @@ int main() {
           req.bad("uninitialised operand", !sv[d].init && !sv[s].init);
         } else {
           Req r2;
-          if (cnt < -1) r2.bad("negative count");
-          if (doff < 0 || soff < 0) r2.bad("negative offset");
+          if (cnt < -1 && sv[self].esz) r2.bad("negative count");
+          if ((doff < 0 && sv[d].esz) || (soff < 0 && sv[s].esz)) r2.bad("negative offset");
           long n = ((cnt == -1) ? lenOf(self) : cnt) * sv[self].esz;
           if (soff * sv[s].esz + n > sv[s].size) r2.bad("out of the source's range");
           if (doff * sv[d].esz + n > sv[d].size) r2.bad("out of the destination's range");
@@ -410,7 +418,7 @@ int main() {
       }
 
       // ---- O6: risky shapes are tried in a child first
-      if (risky && (forkAll || probeBad[riskClass] > 0 || probeOk[riskClass] < 2)) {
+      if (risky && (forkAll || riskClass == 4 || probeBad[riskClass] > 0 || probeOk[riskClass] < 2)) {
         std::string crash = probe(act);
         if (crash.empty()) probeOk[riskClass]++; else probeBad[riskClass]++;
         if (!crash.empty()) {
